@@ -15,7 +15,19 @@ def compare(ctx, label, d, keep_files=False):
     b = defsview.model_view(d)
     if a and a[0].startswith('LIB-ERROR') and b and b[0].startswith('SETUP-ERROR'): return None
     fd = recordings.first_diff(a, b)
-    if fd is None: return None
+    if fd is None:
+        # ids that name nothing (the type field of a creation packet is a signed 16-bit number): 0, negative, past the end
+        try:
+            from replay_unpack.core.entity_def.definitions import Definitions
+            dd = Definitions(d); n = len(list(dd._entity_defs_by_name))
+            for k in (0, -1, -2, -n, n + 1, n + 2, -0x8000, 0x7fff):
+                try: got = dd.get_entity_def_by_index(k).get_name()
+                except Exception: continue
+                return dict(kind='index-map', definitions=label, entity=None, index=k, implementation='entity type id %d denotes %s' % (k, got),
+                            expected='entity type id %d denotes nothing (ids are the 1-based positions 1..%d)' % (k, n), defs=worldcheck.read_defs_dir(d) if keep_files else None,
+                            how='Definitions(dir).get_entity_def_by_index(%d)' % k)
+        except Exception: pass
+        return None
     # which entity / which list
     ent = None
     for l in a[:fd[0] + 1]:
